@@ -167,7 +167,7 @@ func delayedLoggerOverlay(tmp string) (string, error) {
 }
 
 func runC16(res *result) error {
-	res.Rule = "the real rtcmlogger binary built from /repo: stdin fed in random chunks (empty, shorter and longer than the 8096-byte block, binary), stdout and the day's record file compared with the " +
+	res.Rule = "the real rtcmlogger binary built from /repo: stdin fed in random chunks (empty, shorter and longer than the 8096-byte block, binary; also long runs of one byte and a constant message written again and again, one per write), stdout and the day's record file compared with the " +
 		"input after the process has exited; also a build with a 40 ms delay before the recorder's write (overlay), which makes a missing wait deterministic; non-trivial = non-empty input; distinct = distinct input"
 	tmp, err := os.MkdirTemp("", "verif-c16")
 	if err != nil {
@@ -207,6 +207,20 @@ func runC16(res *result) error {
 		}
 		data := make([]byte, size)
 		r.Read(data)
+		// repeating content: a long run of one byte (every 8096-byte block equals the one before) and a
+		// constant message sent again and again, one per write (a station's 1005, a stuck device)
+		content, unit := "random", 0
+		switch {
+		case i%6 == 4 && i >= len(sizes):
+			content = "one-byte-run"
+			data = bytes.Repeat([]byte{byte(r.Intn(2) * 0xff)}, 8096*(2+r.Intn(3))+r.Intn(300))
+		case i%6 == 5 && i >= len(sizes):
+			content = "constant-message-per-write"
+			msg := frame(append([]byte{0x3e, 0xd0}, make([]byte, 17)...))
+			unit = len(msg)
+			data = bytes.Repeat(msg, 5+r.Intn(20))
+		}
+		size = len(data)
 		variant := "plain"
 		if _, ok := bins["delayed-recorder"]; ok && i%2 == 1 {
 			variant = "delayed-recorder"
@@ -228,12 +242,17 @@ func runC16(res *result) error {
 			rest := data
 			for len(rest) > 0 {
 				k := 1 + r.Intn(9000)
+				if unit > 0 {
+					k = unit
+				}
 				if k > len(rest) {
 					k = len(rest)
 				}
 				stdin.Write(rest[:k])
 				rest = rest[k:]
-				if r.Intn(4) == 0 {
+				if unit > 0 {
+					time.Sleep(3 * time.Millisecond) // each copy arrives as a read of its own
+				} else if r.Intn(4) == 0 {
 					time.Sleep(time.Millisecond)
 				}
 			}
@@ -268,8 +287,12 @@ func runC16(res *result) error {
 		if fail != "" {
 			outcome = "fail"
 		}
-		op := fmt.Sprintf("rtcmlogger variant=%s size=%d seed=%d run=%d", variant, size, *seed, i)
-		res.record(variant, op, outcome, size > 0, fail)
+		op := fmt.Sprintf("rtcmlogger variant=%s content=%s size=%d seed=%d run=%d", variant, content, size, *seed, i)
+		class := variant
+		if content != "random" {
+			class += "/" + content
+		}
+		res.record(class, op, outcome, size > 0, fail)
 		os.RemoveAll(dir)
 	}
 	return nil
@@ -344,7 +367,7 @@ func traffic(r *rand.Rand, kind string, count int) []byte {
 
 func runC19(res *result) error {
 	res.Rule = "the real proxy binary built from /repo between a test client and a test upstream server on TCP loopback: client-to-server and server-to-client byte streams (valid frames, CRC-valid frames with " +
-		"malformed content, random bytes, payloads and non-RTCM data containing '<' and '>') in random chunkings, as single bursts of several read buffers, and as single bursts of exactly 1..3 times 1024/2048/4096/8192 bytes followed by silence; every fourth run the server half-closes after its answer and the client sends afterwards; both directions compared byte for byte; in verbose runs the message log " +
+		"malformed content, random bytes, payloads and non-RTCM data containing '<' and '>') in random chunkings, as single bursts of several read buffers, and as single bursts of exactly 1..3 times 1024/2048/4096/8192 bytes followed by silence; every fourth run the server half-closes after its answer and the client sends afterwards; one run in eight has a client that only listens while the server pauses for 12 s (thorough 65 s) in mid-answer; both directions compared byte for byte; in verbose runs the message log " +
 		"(raw bytes of every message the parser produced, i.e. what the report lists) must be a prefix of the relayed client stream and, for streams of valid frames, all of it; /status/report fetched and the number of '<'/'>' in the body " +
 		"compared with the number the page has when the traffic contains no markup at all; non-trivial = at least 100 bytes relayed; distinct = distinct traffic"
 	tmp, err := os.MkdirTemp("", "verif-c19")
@@ -389,9 +412,16 @@ func runC19(res *result) error {
 		if err := cmd.Start(); err != nil {
 			return err
 		}
+		// one run in eight: a client that sends its request and then only listens (an NTRIP rover),
+		// while the server pauses for longer than any plausible idle limit and then goes on sending
+		listening := i%8 == 5
+		idle := time.Duration(n(12, 65)) * time.Second
 		count := 3 + r.Intn(8)
 		if burst {
 			count = 40 + r.Intn(40)
+		}
+		if listening {
+			burst, count = false, 1
 		}
 		c2s := traffic(r, kind, count)
 		// every fourth run: one burst whose length is an exact multiple of a plausible read-buffer
@@ -424,6 +454,7 @@ func runC19(res *result) error {
 			go func() {
 				defer func() { sent <- true }()
 				rest := s2c
+				paused := false
 				for len(rest) > 0 {
 					k := 1 + r.Intn(500)
 					if k > len(rest) {
@@ -432,6 +463,10 @@ func runC19(res *result) error {
 					conn.Write(rest[:k])
 					rest = rest[k:]
 					time.Sleep(time.Millisecond)
+					if listening && !paused && len(rest) <= len(s2c)/2 && len(rest) > 0 {
+						paused = true
+						time.Sleep(idle)
+					}
 				}
 				if tc, ok := conn.(*net.TCPConn); ok && halfClose {
 					tc.CloseWrite()
@@ -508,6 +543,9 @@ func runC19(res *result) error {
 			var fromServer []byte
 			tmpb := make([]byte, 4096)
 			conn.SetReadDeadline(time.Now().Add(8 * time.Second))
+			if listening {
+				conn.SetReadDeadline(time.Now().Add(idle + 10*time.Second))
+			}
 			for len(fromServer) < len(s2c) {
 				k, err := conn.Read(tmpb)
 				fromServer = append(fromServer, tmpb[:k]...)
@@ -590,6 +628,9 @@ func runC19(res *result) error {
 		}
 		if halfClose {
 			kind += "/server-half-close"
+		}
+		if listening {
+			kind += fmt.Sprintf("/listening-client-%v", idle)
 		}
 		if logged {
 			kind += "/logged"
